@@ -18,7 +18,7 @@ m = {
         "guard": "verif",
         "enable": "go build -tags verif (the harness module /verif/harness replaces github.com/sarchlab/akita/v5 => /repo)",
         "baseline_off_cmd": BASE,
-        "source_commits": json.load(open(os.path.join(ROOT, "hooks.json"))) if os.path.exists(os.path.join(ROOT, "hooks.json")) else [],
+        "source_commits": sorted(set(sum([json.load(open(f)) for f in sorted(__import__("glob").glob(os.path.join(ROOT, "hooks", "*.json")))], []))),
         "add_only": True,
     },
     "engines": [{"name": "coq-proof+correspondence", "path": "check",
@@ -48,4 +48,14 @@ for pid in ALL:
         m["not_applicable"].append({"property_id": pid,
                                     "reason": NA.get(pid, "not yet built: check under construction; claimed in DESIGN.md, no command registered yet")})
 json.dump(m, open(os.path.join(ROOT, "MANIFEST.json"), "w"), indent=1)
+# known_findings.json is the committed merge of known_findings/Cxx.json fragments
+import glob
+kf = []
+for f in sorted(glob.glob(os.path.join(ROOT, "known_findings", "C*.json"))):
+    kf += json.load(open(f))
+json.dump(kf, open(os.path.join(ROOT, "known_findings.json"), "w"), indent=1)
+hk = []
+for f in sorted(glob.glob(os.path.join(ROOT, "hooks", "*.json"))):
+    hk += json.load(open(f))
+
 print("wrote MANIFEST.json with %d checks, %d not_applicable" % (len(m["checks"]), len(m["not_applicable"])))
